@@ -1,4 +1,5 @@
 import AC.HelpersX
+import AC.BigintTie
 /-! # C19 — multi-precision helpers agree with their mathematical definitions
 
 Models (the functions the correspondence run compares with internal/bigint, internal/bigints,
@@ -187,5 +188,41 @@ example : hex "f_F".toList = some 255 ∧ hex "_".toList = none ∧ extractI 0b1
     uniq [1, 1, 2, 1] = [1, 2, 1] ∧ index 3 [5, 3, 3] = 1 ∧ isPow2 8 = true ∧ bitsSet 10 = [1, 3] := by decide
 example : pow2UpTo 5 = [1, 2, 4] := by simp [pow2UpTo, pow2Loop]
 example : mergeUnique [1, 3] [2, 3] = [1, 2, 3] := by simp [mergeUnique]
+
+/-! ## the same statements about the functions AS TRANSLATED FROM THE CURRENT SOURCE
+
+`AC.Gen.Bigint.*` is regenerated from internal/bigint/bigint.go on every run by the translator
+`harness/cmd/extract/c19.go`; `AC/BigintTie.lean` proves the translated terms equal to the models. -/
+
+/-- `Mask(l,h)` of the source, `l ≤ h`: exactly the bits `l ≤ i < h` are set -/
+theorem C19_src_mask_testBit (l h : Nat) (hlh : l ≤ h) :
+    ∃ m : Nat, AC.Gen.Bigint.mask l h = (m : Int) ∧ ∀ i, m.testBit i = true ↔ l ≤ i ∧ i < h := by
+  rw [AC.BigintTie.mask_eq]; exact C19_mask_testBit l h hlh
+
+/-- `Ones(n)` of the source is `2^n − 1` -/
+theorem C19_src_ones (n : Nat) : AC.Gen.Bigint.ones n = (((2 ^ n - 1 : Nat)) : Int) := by
+  rw [AC.BigintTie.ones_eq]; exact C19_ones n
+
+/-- `Extract(x,l,h)` of the source, `x ≥ 0`, `l ≤ h`: `⌊x / 2^l⌋ mod 2^(h−l)` -/
+theorem C19_src_extract (x l h : Nat) (hlh : l ≤ h) :
+    AC.Gen.Bigint.extract (x : Int) l h = ((x / 2 ^ l % 2 ^ (h - l) : Nat) : Int) := by
+  rw [AC.BigintTie.extract_eq]; exact C19_extract_eq x l h hlh
+
+/-- `IsPow2` of the source is true exactly on the powers of two -/
+theorem C19_src_isPow2_iff (x : Int) : AC.Gen.Bigint.isPow2 x = true ↔ ∃ k : Nat, x = (2 : Int) ^ k := by
+  rw [AC.BigintTie.isPow2_eq]; exact C19_isPow2_iff x
+
+/-- `MinMax` of the source returns the minimum and the maximum -/
+theorem C19_src_minMax (x y : Int) :
+    (AC.Gen.Bigint.minMax x y).1 = min x y ∧ (AC.Gen.Bigint.minMax x y).2 = max x y := by
+  rw [AC.BigintTie.minMax_eq]; exact P.HX.minMax_spec x y
+
+/-- `Equal`, `EqualInt64`, `IsZero`, `IsNonZero`, `Clone`, `Pow2` of the source -/
+theorem C19_src_small (x y : Int) (e : Nat) :
+    (AC.Gen.Bigint.equal x y = true ↔ x = y) ∧ (AC.Gen.Bigint.equalInt64 x y = true ↔ x = y) ∧
+    (AC.Gen.Bigint.isZero x = true ↔ x = 0) ∧ (AC.Gen.Bigint.isNonZero x = true ↔ x ≠ 0) ∧
+    AC.Gen.Bigint.clone x = x ∧ AC.Gen.Bigint.pow2 e = (2 : Int) ^ e :=
+  ⟨AC.BigintTie.equal_iff x y, AC.BigintTie.equalInt64_iff x y, AC.BigintTie.isZero_iff x,
+   AC.BigintTie.isNonZero_iff x, AC.BigintTie.clone_eq x, AC.BigintTie.pow2_eq e⟩
 
 end AC.Props.C19
